@@ -127,6 +127,33 @@ fn run_enc(label: &str, chunks: &[Vec<u8>]) -> String {
     )
 }
 
+/// `LossyDecoder::new_from_encoding_rs_decoder` with a decoder the caller configured (`how`: `bom` = `new_decoder`
+/// (BOM sniffing, may switch encoding), `rm` = `new_decoder_with_bom_removal`, `nobom` = `new_decoder_without_bom_handling`)
+/// fed chunk by chunk, against the one-shot decode with the same configuration: `S=<text> ## D=<text>`
+fn run_encd(label: &str, how: &str, chunks: &[Vec<u8>]) -> String {
+    let Some(enc) = encoding_rs::Encoding::for_label(label.as_bytes()) else {
+        return "bad-label".into();
+    };
+    let dec = match how {
+        "bom" => enc.new_decoder(),
+        "rm" => enc.new_decoder_with_bom_removal(),
+        "nobom" => enc.new_decoder_without_bom_handling(),
+        _ => return "bad-case".into(),
+    };
+    let mut d: LossyDecoder<Rec> = LossyDecoder::new_from_encoding_rs_decoder(dec, Rec::default());
+    for c in chunks {
+        d.process(ByteTendril::from_slice(c));
+    }
+    let r = d.finish();
+    let all: Vec<u8> = chunks.concat();
+    let dtext = match how {
+        "bom" => enc.decode(&all).0,
+        "rm" => enc.decode_with_bom_removal(&all).0,
+        _ => enc.decode_without_bom_handling(&all).0,
+    };
+    format!("S={} ## D={}", show_str(&r.text), show_str(&dtext))
+}
+
 fn run_parse(kind: &str, chunks: &[Vec<u8>]) -> String {
     let all: Vec<u8> = chunks.concat();
     let lossy = String::from_utf8_lossy(&all).into_owned();
@@ -240,6 +267,10 @@ pub fn run(fields: &[&str]) -> String {
         },
         ["std", bytes] => match parse_bytes(bytes) {
             Some(b) => run_std(&b),
+            None => "bad-case".into(),
+        },
+        ["encd", label, how, chunks] => match parse_chunks(chunks) {
+            Some(c) => run_encd(label, how, &c),
             None => "bad-case".into(),
         },
         ["enc", spec, chunks] => match parse_chunks(chunks) {
